@@ -123,6 +123,9 @@ def convert_asynq_to_async(fn):
                             result = generator.throw(exception)
                     except StopIteration as exc:
                         return exc.value
+                    except async_task.AsyncTaskResult as exc:
+                        # asynq.result(value) ends the function like `return value`
+                        return exc.result
 
                     try:
                         send = await resolve_awaitables(result)
@@ -135,7 +138,10 @@ def convert_asynq_to_async(fn):
 
         async def wrapped(*_args, **_kwargs):
             with AsyncioMode():
-                return fn(*_args, **_kwargs)
+                try:
+                    return fn(*_args, **_kwargs)
+                except async_task.AsyncTaskResult as exc:
+                    return exc.result
 
         return wrapped
 
